@@ -68,7 +68,18 @@ def load_known():
     return known, fixed
 
 
+def repo_lock():
+    """Serialises users of /repo's working tree (checks vs. seeded-defect runs)."""
+    if os.environ.get("VERIF_LOCK_HELD"):
+        return None
+    import fcntl
+    f = open("/tmp/verif-repo.lock", "w")
+    fcntl.flock(f, fcntl.LOCK_EX)
+    return f
+
+
 def main():
+    _lock = repo_lock()
     args = sys.argv[1:]
     if not args:
         print(__doc__)
